@@ -60,7 +60,11 @@ func (v *jv) tokens(sb *strings.Builder) bool {
 	case 'f':
 		sb.WriteString("F,")
 	case 'i':
-		fmt.Fprintf(sb, "I,%d,", v.i)
+		if v.s != "" {
+			sb.WriteString("I," + v.s + ",")
+		} else {
+			fmt.Fprintf(sb, "I,%d,", v.i)
+		}
 	case 'd':
 		return false
 	case 's':
@@ -131,7 +135,11 @@ func (v *jv) text(r *hx.Rand, sb *strings.Builder) {
 	case 'f':
 		sb.WriteString("false")
 	case 'i':
-		sb.WriteString(strconv.FormatInt(v.i, 10))
+		if v.s != "" {
+			sb.WriteString(v.s)
+		} else {
+			sb.WriteString(strconv.FormatInt(v.i, 10))
+		}
 	case 'd':
 		sb.WriteString(v.s)
 	case 's':
